@@ -317,8 +317,10 @@ CLAIMED["C11"] = dict(
          "unless it is the first release after start or after a PLI; the sender model's output meets the "
          "hypotheses.",
     design_ref="5 / C11",
-    note="PARTIAL: frame order under the C10 lateness hypothesis, byte identity with the sender's bitstream (C16 "
-         "composition), timestamp mapping and recovery liveness are checked by the closed-loop oracle only. A "
+    note="Frame order: under the C10 lateness hypothesis the frames reach the decoder in stream order, no position "
+         "twice (C11_frame_order, C10_ordered lifted through the pipeline; 11 theorems in all). PARTIAL: byte identity "
+         "with the sender's bitstream (C16 composition), timestamp mapping and recovery liveness are checked by the "
+         "closed-loop oracle only. A "
          "retransmission arriving 100 or more positions late resets the jitter buffer and is a precondition on the "
          "input. REMB, statistics, wire codecs and scheduling are not modelled. Tie: differential run against a real "
          "NackGenerator, a real RTCRtpSender (_run_rtp fed scripted frames, NACKs via _handle_rtcp_packet), a real "
